@@ -393,9 +393,13 @@ class Engine:
         if r == "unsat":
             self.discharged += 1
             st["discharged"] += 1
-            if len(self.samples) < 6 and st["discharged"] == 1:
-                txt = z3.simplify(claim).sexpr()
-                self.samples.append(dict(clause=clause, path_conditions=len(self.pc), claim=txt[:400], result="unsat (discharged)"))
+            if len(self.samples) < 12 and st.get("sampled", 0) < 2:
+                txt = cs.sexpr()
+                if txt != "true" or st["discharged"] > 50:
+                    st["sampled"] = st.get("sampled", 0) + 1
+                    self.samples.append(dict(clause=clause, path_conditions=len(self.pc),
+                                             claim=(txt[:500] if txt != "true" else "true (both sides are the same term after simplification)"),
+                                             query="(check-sat) of: path condition AND (not claim)", result="unsat (discharged)"))
             return True
         if r == "sat":
             st["violated"] += 1
